@@ -27,6 +27,7 @@ def run(ctx, crate):
     rule_len_saturating(ctx, crate)
     rule_fraction_clamp(ctx, crate)
     rule_getters(ctx, crate)
+    rule_pos_writers(ctx, crate)
     # "position() equals the value defined by the history of ... finish calls": per-variant effect of finishing on the position
     from .c04 import rule_finish_arms, rule_on_finish_writers
     rule_finish_arms(ctx, crate)
@@ -231,3 +232,58 @@ def rule_getters(ctx, crate, rule="R-POS-GETTERS"):
     if ar:
         cs = ar.calls(r"state::AtomicPosition::set")
         ctx.check(bool(cs) and all(is_const(c.args[1], 0) for c in cs), rule, "reset-sets-zero", ar.name, K.fn_loc(ar), "reset stores position 0", "reset does not store 0", cfg)
+
+
+POS_HISTORY_API = r"progress_bar::ProgressBar::(inc|dec|set_position|with_position|reset|finish\w*|abandon\w*|update|new\w*|no_length|reset_eta|reset_elapsed|with_draw_target|hidden|wrap_\w+|with_elapsed)"
+NON_POS_API = r"progress_bar::ProgressBar::(set_length|inc_length|dec_length|unset_length|set_message|set_prefix|set_style|set_tab_width|set_draw_target|tick|" \
+              r"enable_steady_tick|disable_steady_tick|println|suspend|with_message|with_prefix|with_style|with_tab_width|with_finish|" \
+              r"position|length|eta|elapsed|duration|per_sec|message|prefix|is_finished|is_hidden|downgrade|style|force_draw)"
+
+
+def rule_pos_writers(ctx, crate, rule="R-POS-WRITERS"):
+    """"position() equals the value defined by the history of inc/dec/set_position/reset/finish calls": nothing else writes
+    it. (reset_eta/reset_elapsed share BarState::reset with reset(): that only Reset::All touches the position is the
+    per-variant clause `reset-all-only` of R-POS-GETTERS.) Who-may-write check over the call graph: from the public operations that are not position operations (the length
+    family, messages, style, ticking, draw-target changes, getters) no function that stores into the shared position
+    (AtomicPosition::set / inc / dec / reset, or a direct store / RMW on its atomic) is reachable. Closures handed in by the
+    user (`update`) and Drop impls of the bar itself (which finish it) are position operations by definition."""
+    cfg = crate.config
+    writers = set()
+    for c in pos_atomic_calls(crate):
+        if K.meth(c.path) in ("store", "swap", "fetch_add", "fetch_sub", "fetch_update", "compare_exchange", "compare_exchange_weak", "fetch_max", "fetch_min"):
+            writers.add(K.owner_fn(crate, c.body) if c.body.kind == "Closure" else c.body.name)
+    ctx.floor(rule, len(writers), 2, cfg, "functions that store into the shared position")
+    g = K.callgraph(crate)
+    roots = [b for b in K.lib_bodies(crate) if b.api and re.fullmatch(NON_POS_API, b.name)]
+    ctx.floor(rule, len(roots), 20, cfg, "public ProgressBar operations that are not position operations")
+    # Drop of the bar state finishes the bar: not reachable from these roots as a call (drop glue is), so it is excluded by name
+    stop = {n for n in g if re.fullmatch(r"<state::BarState as std::ops::Drop>::drop|<progress_bar::\w+ as std::ops::Drop>::drop", n)}
+    for b in roots:
+        reach = K.cg_reach(g, [b.name], avoid=stop)
+        hit = sorted(reach & writers)
+        path = ""
+        if hit:
+            # shortest call chain for the report
+            prev = {b.name: None}
+            work = [b.name]
+            while work:
+                n = work.pop(0)
+                if n in writers:
+                    chain = []
+                    while n is not None:
+                        chain.append(K.meth(n))
+                        n = prev[n]
+                    path = " <- ".join(chain)
+                    break
+                for m in g.get(n, ()):
+                    if m not in prev and m not in stop:
+                        prev[m] = n
+                        work.append(m)
+        ctx.check(not hit, rule, "no-position-write:%s" % K.meth(b.name), b.name, K.fn_loc(b),
+                  "%s cannot reach a store into the position" % K.meth(b.name),
+                  "%s is not a position operation but reaches a store into the shared position (%s): position() then no longer follows the inc/dec/set_position/reset/finish history, "
+                  "and the plain store can swallow a concurrent inc" % (K.meth(b.name), path), cfg)
+    # every public ProgressBar method is classified
+    for b in K.lib_bodies(crate):
+        if b.api and b.name.startswith("progress_bar::ProgressBar::") and b.kind != "Closure" and not re.fullmatch(NON_POS_API, b.name) and not re.fullmatch(POS_HISTORY_API, b.name):
+            ctx.bad(rule, "unclassified-api:%s" % K.meth(b.name), b.name, K.fn_loc(b), "public method %s is in neither table of R-POS-WRITERS (position operation / not a position operation)" % b.name, cfg)
